@@ -321,7 +321,20 @@ def explore(pid, tier, seed, use_model, case_iter=None, pool=None):
     if own:
         pool = mp.Pool(NPROC)
     try:
-        for r in pool.imap_unordered(work, jobs):
+        # a call into the implementation that never returns from C code (e.g. `numpy_int in range(huge)`) cannot be interrupted
+        # by the per-case alarm: the other workers finish the remaining chunks, and when no result has arrived for
+        # VERIF_STALL seconds the hung workers are given up (their chunks are lost; see `stalled` in main)
+        results = pool.imap_unordered(work, jobs)
+        stall = int(os.environ.get("VERIF_STALL", "300"))
+        while True:
+            try:
+                r = results.next(timeout=stall)
+            except StopIteration:
+                break
+            except mp.TimeoutError:
+                tot["stalled"] = stall
+                tot["hist"]["stalled:chunks-lost-to-hung-workers"] = 1
+                break
             tot["n"] += r["n"]
             tot["nontrivial"].update(r["nontrivial"])
             for k in ("fails", "disagree", "model_fails", "internal"):
@@ -436,6 +449,10 @@ def main():
         print("INTERNAL ERROR in the machinery (not a verdict):", file=sys.stderr)
         print(tot["internal"][0]["trace"], file=sys.stderr)
         print(jd(tot["internal"][0]["case"])[:2000], file=sys.stderr)
+        sys.exit(2)
+    if tot.get("stalled") and not tot["fails"] and not tot["disagree"]:
+        print("INTERNAL ERROR (not a verdict): no worker delivered a result for %d s - a call into the implementation does not return; "
+              "nothing that was explored failed" % tot["stalled"], file=sys.stderr)
         sys.exit(2)
     if tot["model_fails"]:
         # the model itself violates the oracle outside the known classes -> my model/theorem is wrong
